@@ -64,6 +64,7 @@ inductive Ty where
   | vmStack (elem : Ty)              -- tlb.VmStack over its element type (tlb.VmStackValue)
   | dictE (k t : Ty)                 -- tlb.HashmapE[K,V]: Maybe ^(Hashmap n V); the dictionary itself is C05's model
   | dict (k t : Ty)                  -- tlb.Hashmap[K,V] written into the current cell (hm_edge; never empty); greedy
+  | chain (elem : Ty)                -- wallet.W5ExtendedActions: first element inline, every further one behind a ref
   | encErr (id : String)             -- Go MarshalTLB returns "not implemented"; decode side not modelled
   | opaque (id : String)             -- custom codec without a model
 inductive Fields where
